@@ -202,6 +202,38 @@ func measureLookup(f *fox.Router, reqs []served, fw fox.ResponseWriter) float64 
 	return min
 }
 
+// measureMixed serves every request right after a read-only resolution (Router.Reverse) of the same request,
+// which borrows a context from the same pool. It returns the allocations of the cycle beyond those of the
+// Reverse calls alone (measured separately), i.e. what routing allocates when read-only lookups run in between.
+func measureMixed(f *fox.Router, reqs []served, w *nullWriter) float64 {
+	minOf := func(cycle func()) float64 {
+		cycle()
+		cycle()
+		min := testing.AllocsPerRun(10, cycle)
+		for i := 0; i < 5 && min != 0; i++ {
+			if b := testing.AllocsPerRun(10, cycle); b < min {
+				min = b
+			}
+		}
+		return min
+	}
+	mixed := minOf(func() {
+		for i := range reqs {
+			f.Reverse(reqs[i].req.Method, reqs[i].host, reqs[i].path)
+			f.ServeHTTP(w, reqs[i].req)
+		}
+	})
+	if mixed == 0 {
+		return 0
+	}
+	alone := minOf(func() {
+		for i := range reqs {
+			f.Reverse(reqs[i].req.Method, reqs[i].host, reqs[i].path)
+		}
+	})
+	return mixed - alone
+}
+
 var lookupWriter = fx.WrapRW(fx.NewRW())
 
 func run(c *mc.Ctx, r *mc.Result) {
@@ -268,6 +300,10 @@ func run(c *mc.Ctx, r *mc.Result) {
 			if a := measureLookup(f, reqs, lookupWriter); a != 0 {
 				r.Violate("alloc", "allocates-lookup", fmt.Sprintf("a cycle of Router.Lookup + Close over the %d served requests of routes %v allocates %.1f objects per cycle in steady state", len(reqs), set, a), Case{Set: set, Hosts: pd.hosts, Paths: pd.paths})
 			}
+			// the same requests, each served right after a read-only Reverse of it (same context pool)
+			if a := measureMixed(f, reqs, w); a > 0 {
+				r.Violate("alloc", "allocates-after-readonly-lookup", fmt.Sprintf("a cycle of Router.Reverse + ServeHTTP over the %d served requests of routes %v allocates %.1f objects per cycle more than the Reverse calls alone, in steady state", len(reqs), set, a), Case{Set: set, Hosts: pd.hosts, Paths: pd.paths})
+			}
 			if i < 2 {
 				r.Sample(map[string]any{"pool": pd.name, "set": set, "served_requests": len(reqs)})
 			}
@@ -279,7 +315,7 @@ func init() {
 	mc.Register(&mc.Check{
 		ID:    "C16",
 		Level: "exploration",
-		Rule:  "every subset (size<=K) of (pattern, ignore-slash) pairs from generated pools (flat, deep backtracking, many parameters, hostnames, >50 children) on the production build; every request the reference says is served (directly or by ignoring a trailing slash) is served in an interleaved cycle (through ServeHTTP, and through Router.Lookup + Close) measured with testing.AllocsPerRun after warm-up (GC off, GOMAXPROCS 1, allocation-free handler and writer); evaluations = served requests measured; non-trivial = sets with >=2 served requests",
+		Rule:  "every subset (size<=K) of (pattern, ignore-slash) pairs from generated pools (flat, deep backtracking, many parameters, hostnames, >50 children) on the production build; every request the reference says is served (directly or by ignoring a trailing slash) is served in an interleaved cycle (through ServeHTTP, through Router.Lookup + Close, and through ServeHTTP with a read-only Router.Reverse before each request) measured with testing.AllocsPerRun after warm-up (GC off, GOMAXPROCS 1, allocation-free handler and writer); evaluations = served requests measured; non-trivial = sets with >=2 served requests",
 		Assumptions: []string{
 			"an allocation is what the Go runtime counts (runtime.MemStats.Mallocs); a non-zero reading is re-measured 5 times and the minimum is reported",
 			"built without the verif tag and without the sync overlay: production code is measured",
@@ -300,6 +336,9 @@ func init() {
 			}
 			if a := measureLookup(f, reqs, lookupWriter); a != 0 {
 				return fmt.Sprintf("%.1f allocations per cycle of Router.Lookup + Close over %d served requests of routes %v", a, len(reqs), cs.Set)
+			}
+			if a := measureMixed(f, reqs, &nullWriter{h: http.Header{}}); a > 0 {
+				return fmt.Sprintf("%.1f allocations per cycle of Router.Reverse + ServeHTTP beyond Reverse alone, over %d served requests of routes %v", a, len(reqs), cs.Set)
 			}
 			return ""
 		}}},
